@@ -78,6 +78,10 @@ static void check_quiescent(const char *what) {
 			if (vx_send_buffer_index() != 0) snprintf(cls, sizeof cls, "mirror-not-flushed: the mirror waits in the send buffer for a manual or timed flush");
 			res_violation(cls, "%s: %d mirror(s) outstanding for %s, nothing held by flow control", what, S.np[b], BNAME[b]);
 			S.np[b] = 0;
+		} else if (held_mirrors == S.np[b] && is_mirror(types[0]) && !S.stalled) {
+			/* a mirror expects no answer, so it can never wait for response budget itself: it is held only behind an earlier held
+			 * message (FIFO) or while the node is stalled.  A mirror at the HEAD of the held queue of an unstalled node is stranded. */
+			res_violation("mirror-held-without-cause: a mirror waits at the head of the held queue although the node is not stalled (mirrors need no response budget)", "%s: %d held for %s", what, held_mirrors, BNAME[b]); S.np[b] = 0;
 		} else if (held_mirrors == S.np[b]) { res_printf("C mirrors_held_then_released_cases 1\n"); }
 		else if (held_mirrors != S.np[b]) {
 			res_violation("mirror-held-count: held mirrors do not match the reports awaiting their mirror", "%s: %d held, %d expected", what, held_mirrors, S.np[b]); S.np[b] = 0;
